@@ -1,5 +1,8 @@
 """C14 — transposition shifts each pitch class by the interval, keeping pitches in range."""
+import ast
+import re
 import gens as G
+import h3midi_util as H
 import pyimpl as P
 from oracle_util import *  # noqa
 from protocol import from_real, KEYS, KEY_IDX
@@ -46,8 +49,25 @@ LO, HI = 21, 108
 
 
 def tonic(k):
-    from scoda.misc.music_theory import MusicMapping
-    return MusicMapping.KeyNoteMapping[k][0][0].value
+    """tonic pitch class of a `Key` member — from the member's NAME through the harness's own circle-of-fifths table
+    (h3midi_util.KEY_MEMBER_TONIC), not from MusicMapping.KeyNoteMapping of the code under test (audit 3, table C14)"""
+    return H.KEY_MEMBER_TONIC[k.name]
+
+
+def tonic_timeline(timed, shift=0):
+    """change points (tick, tonic pitch class) of the key in force, from timed plain messages in sequence order (of several key
+    signatures on one tick the last one is in force); a key that is not one of the fifteen keys shows as the value itself"""
+    force = {}
+    for t, m in timed:
+        if m[TY] == KEYSIG:
+            k = m[KEY]
+            force[t] = (tonic(KEYS[k]) + shift) % 12 if isinstance(k, int) and 0 <= k < len(KEYS) else ("undefined", repr(k))
+    out, cur = [], None
+    for t in sorted(force):
+        if force[t] != cur:
+            out.append((t, force[t]))
+            cur = force[t]
+    return out
 
 
 def o_transpose(inp):
@@ -81,8 +101,11 @@ def o_transpose(inp):
     for (c, p, on, off, v) in nout:
         if not (LO <= p <= HI):
             fails.append(("in-range", f"pitch {p} out of range"))
-        if not any((p - p0 - by) % 12 == 0 for (_, p0, _, _, _) in nin):
-            fails.append(("image", f"note {p} is not the image of any original note under +{by}"))
+        # the image of AN original note: the original that starts on this channel at this tick with this velocity (a resulting note's
+        # note-on is an original note-on, moved) — not merely any original anywhere with a fitting pitch class (audit 3, table C14)
+        if not any(c0 == c and on0 == on and v0 == v and (p - p0 - by) % 12 == 0 for (c0, p0, on0, _, v0) in nin):
+            fails.append(("image", f"note {(c, p, on, off, v)} is not the image under +{by} of an original note of its channel, onset and velocity "
+                                   f"(originals there: {[x for x in nin if x[0] == c and x[2] == on]})"))
     exp_flag = any(not (LO <= m[NOTE] + by <= HI) for m in rel if m[TY] in (ON, OFF))
     if bool(flag) != exp_flag:
         fails.append(("flag", f"returned {flag}, expected {exp_flag}"))
@@ -105,17 +128,16 @@ def o_transpose(inp):
             target.transpose(by)
         except Exception as e:
             fails.append(("inverse", f"raised {type(e).__name__}"))
-    kin = [m for t, m in tin if m[TY] == KEYSIG]
+    # key signatures, whether or not a note was moved by octaves (audit 3, O6): the key in force at every tick is the original one with
+    # its tonic shifted by the interval (compared as tonics: the spelling may change, repeats of the key in force may be dropped)
     kout = [m for t, m in tout if m[TY] == KEYSIG]
-    if not exp_flag and len(kin) == len(kout):
-        for a_, b_ in zip(kin, kout):
-            if b_[KEY] is None or not isinstance(b_[KEY], int):
-                fails.append(("keys", f"key signature became {b_[KEY]!r}"))
-            elif tonic(KEYS[b_[KEY]]) != (tonic(KEYS[a_[KEY]]) + by) % 12:
-                fails.append(("keys", f"key {KEYS[a_[KEY]]} + {by} became {KEYS[b_[KEY]]}"))
     for m in kout:
         if m[KEY] is None or not isinstance(m[KEY], int):
             fails.append(("keys", f"key signature became {m[KEY]!r}"))
+    want, got = tonic_timeline(tin, by), tonic_timeline(tout)
+    if want != got:
+        fails.append(("keys", f"key in force (tick, tonic): original shifted by {by} is {want}, result has {got} "
+                              f"(original keys {[(t, m[KEY]) for t, m in tin if m[TY] == KEYSIG]}, octave shift {exp_flag})"))
     if b is not None and bar_sig[2] is not None:
         k = b.key_signature
         if k is None or tonic(k) != (tonic(KEYS[bar_sig[2]]) + by) % 12:
@@ -127,8 +149,47 @@ def setup(ctx):
     ctx.oracle("transpose", o_transpose)
 
     def kf_d24(f):
-        # the sequence holds the same Message objects more than once (built by concatenate with a repeated / its own argument)
-        return bool(f["input"].get("aliased"))
+        # CLASS: the sequence holds the same Message objects more than once (built by concatenate with a repeated / its own argument).
+        # OUTCOME (audit 3, K4): what D24a describes and nothing else — every shared object is visited once per occurrence, so every note
+        # ends where `reps` successive transpositions by the interval put it (onset, end, velocity untouched), every key signature is
+        # transposed `reps` times, and the flag says whether one of those visits had to wrap.  Any other damage is reported.
+        inp = f["input"]
+        reps = inp.get("aliased")
+        if not reps or inp.get("bar") is not None:
+            return False
+        by = inp["by"]
+        tin, _ = rel_timed([tuple(m) for m in inp["rel"]] * reps)
+        nin = notes_of(tin)
+        wrapped = [False]
+
+        def visits(p):
+            for _ in range(reps):
+                p += by
+                while p < LO:
+                    p += 12
+                    wrapped[0] = True
+                while p > HI:
+                    p -= 12
+                    wrapped[0] = True
+            return p
+        try:
+            if f["clause"] == "exact":
+                got = ast.literal_eval(re.match(r"^expected (\[.*\]), got (\[.*\])$", f["detail"]).group(2))
+                return [tuple(x) for x in got] == sorted((c, visits(p), on, off, v) for (c, p, on, off, v) in nin)
+            if f["clause"] == "image":
+                c, p, on, off, v = ast.literal_eval(re.match(r"^note (\(.*?\)) is not the image", f["detail"]).group(1))
+                return any(c0 == c and on0 == on and v0 == v and visits(p0) == p for (c0, p0, on0, _, v0) in nin)
+            if f["clause"] == "flag":
+                returned = re.match(r"^returned (\w+), expected (\w+)$", f["detail"]).group(1) == "True"
+                for (_, p, _, _, _) in nin:
+                    visits(p)
+                return returned == wrapped[0]
+            if f["clause"] == "keys":
+                got = ast.literal_eval(re.search(r"result has (\[.*?\]) \(original keys", f["detail"]).group(1))
+                return [tuple(x) for x in got] == tonic_timeline(tin, reps * by)
+        except Exception:
+            return False
+        return False
     ctx.kf_predicates["D24a"] = kf_d24
     import json as _json
     import os as _os
@@ -156,7 +217,9 @@ def generate(ctx):
     ctx.check("transpose", D24_EXAMPLE)         # the recorded instance of the known finding (message objects shared through concatenate)
     for i in range(ctx.n(400, 12000)):
         pitches = rng.choice([[21, 22, 30], [108, 107, 100], [60, 64, 67], list(range(21, 109, 7)), [21, 108]])
-        rel, notes = G.gen_wf_rel(rng, pitches=pitches, channels=(0,), max_tick=90, max_dur=30)
+        chans = rng.choice([(0,), (0,), (0, 1), (3,)])
+        ctx.count("channels:%d" % len(chans) if chans != (3,) else "channels:one-not-0")
+        rel, notes = G.gen_wf_rel(rng, pitches=pitches, channels=chans, max_tick=90, max_dur=30)
         if rng.random() < 0.25:
             rel = G.unconsolidate(rng, rel)
             ctx.count("rel:unconsolidated")
@@ -164,7 +227,9 @@ def generate(ctx):
         bar = None
         if rng.random() < 0.3:
             rel = [m for m in rel if m[TY] != TIMESIG]
-            bar = [4, 4, rng.choice([None, 0, 5, 12, 14])]
+            bn, bd = rng.choice([(4, 4), (4, 4), (3, 4), (6, 8), (2, 2), (5, 4)])
+            bar = [bn, bd, rng.choice([None, 0, 5, 12, 14, rng.randrange(15)])]
+            ctx.count("bar:4/4" if (bn, bd) == (4, 4) else "bar:other-signature")
         ctx.case((rel, by, bar), len(notes) > 0 and by != 0)
         ctx.count("bar" if bar else "sequence")
         if by % 12 == 0:
@@ -173,6 +238,11 @@ def generate(ctx):
         if i % 4 == 0:
             ctx.count("wrapper-states")
             ctx.check("transpose", {"rel": rel, "by": by, "bar": bar, "state": rng.choice(P.SEQ_STATES[1:])})
+        if i % 10 == 0:
+            # members of D24a's class: the message objects occur two or three times (mid-range pitches, small intervals: no octave wrap)
+            arel, _ = G.gen_wf_rel(rng, pitches=[55, 60, 64, 67], channels=(0,), max_tick=60, max_dur=20)
+            ctx.count("aliased-objects(D24a class)")
+            ctx.check("transpose", {"rel": arel, "by": rng.choice([1, -1, 2, 3, -5, 0, 12]), "bar": None, "aliased": rng.choice([2, 2, 3])})
         ctx.corr("transposeRel", P.op_transposeRel(by, rel))
         if bar is not None:
             ctx.corr("barTranspose", P.op_barTranspose(bar[0], bar[1], bar[2], rel, by))
